@@ -14,6 +14,7 @@ pub fn run(rep: &Report) -> bool {
         "C06" => props::c06::run(rep),
         "C07" => props::c07::run(rep),
         "C10" => props::c10::run(rep),
+        "C11" => props::c11::run(rep),
         "C13" => props::c13::run(rep),
         "C14" => props::c14::run(rep),
         "C16" => props::c16::run(rep),
@@ -65,6 +66,7 @@ pub fn replay(rep: &Report, path: &str) -> i32 {
         "C06" => props::c06::replay(rep, &stage, &j),
         "C07" => props::c07::replay(rep, &stage, &j),
         "C10" => props::c10::replay(rep, &stage, &j),
+        "C11" => props::c11::replay(rep, &stage, &j),
         "C13" => props::c13::replay(rep, &stage, &j),
         "C14" => props::c14::replay(rep, &stage, &j),
         "C16" => props::c16::replay(rep, &stage, &j),
